@@ -115,7 +115,8 @@ pub fn run(a: &Args) {
             let k = rng.below(5) as usize;
             let cands: Vec<Target> = (0..k).map(|i| Target { identifier: format!("c-{i}"), address: SocketAddr::new(rng.pick(IPS).parse().unwrap(), *rng.pick(&[0u16, 1, 25565, 65535])), meta: gen_md(&mut rng, false).into_iter().collect() }).collect();
             let client = SocketAddr::new(rng.pick(IPS).parse().unwrap(), *rng.pick(&[0u16, 40000, 65535]));
-            let server = (rng.pick(&["mc.example.org", "", "ünï", "10.0.0.1"]).to_string(), *rng.pick(&[0u16, 25565, 65535]));
+            // whatever text the client put into its handshake, verbatim: trailing dots, case, spaces, markers after a NUL
+            let server = (rng.pick(&["mc.example.org", "", "ünï", "10.0.0.1", "play.example.org.", "eu.play.example.org..", ".", "Play.Example.ORG", " padded ", "mc.example.org\u{0}FML3\u{0}", "[2001:db8::1]", "xn--nxasmq6b.example"]).to_string(), *rng.pick(&[0u16, 25565, 65535]));
             let proto = *rng.pick(&[0i32, 767, 47, i32::MAX]);
             let user = rng.pick(&["Notch", "Ünï", "a&b", ""]).to_string();
             let uid = uuid::Uuid::from_u128(rng.next() as u128 * 0x1_0000_0001);
